@@ -47,7 +47,56 @@ def nshards(tier):
     return 16
 
 
+FILE_MODES = ('wb', 'w+b', 'ab', 'a+b', 'r+b', 'xb', 'pipe', 'unseekable')
+
+
+class Unseekable:
+    def __init__(self):
+        self.buf = bytearray()
+
+    def write(self, data):
+        self.buf += data
+        return len(data)
+
+    def seekable(self):
+        return False
+
+    def flush(self):
+        pass
+
+
 def save_bytes(mid, real_file=False):
+    if real_file in FILE_MODES:
+        # save(file=...) to a real file object opened in some mode, or to something that cannot seek
+        mode = real_file
+        if mode == 'unseekable':
+            f = Unseekable()
+            mid.save(file=f)
+            return bytes(f.buf)
+        if mode == 'pipe':
+            import threading
+            r, w = os.pipe()
+            out = []
+            th = threading.Thread(target=lambda: out.append(os.fdopen(r, 'rb').read()))
+            th.start()
+            try:
+                with os.fdopen(w, 'wb') as f:
+                    mid.save(file=f)
+            finally:
+                th.join(10)
+            return out[0] if out else b''
+        fd, path = tempfile.mkstemp(suffix='.mid', prefix='vmon-c07-')
+        os.close(fd)
+        if mode == 'xb':
+            os.remove(path)
+        try:
+            with open(path, mode) as f:
+                mid.save(file=f)
+            with open(path, 'rb') as f:
+                return f.read()
+        finally:
+            if os.path.exists(path):
+                os.remove(path)
     if real_file:
         fd, path = tempfile.mkstemp(suffix='.mid', prefix='vmon-c07-')
         os.close(fd)
@@ -63,7 +112,7 @@ def save_bytes(mid, real_file=False):
 
 
 def load_bytes(b, real_file=False, **kw):
-    if real_file:
+    if real_file is True:
         fd, path = tempfile.mkstemp(suffix='.mid', prefix='vmon-c07-')
         os.write(fd, b)
         os.close(fd)
@@ -335,6 +384,20 @@ def charset_sequence(ctx):
     """The same texts saved under two charsets in one process (state kept
     between saves would show)."""
     texts = ['caf\xe9', '\xe9\xe8\xfc', 'abc', '']
+    # the charset attribute is assigned after construction
+    for a, b in (('latin1', 'utf-8'), ('utf-8', 'cp437'), ('cp1252', 'utf-16')):
+        mid = MidiFile(charset=a)
+        tr = MidiTrack([MetaMessage('text', text=t, time=1) for t in texts] + [MetaMessage('track_name', name='caf\xe9')])
+        mid.tracks.append(tr)
+        case = {'kind': 'charsetseq', 'seq': [a, b], 'at': 'reassigned'}
+        try:
+            save_bytes(mid)
+            mid.charset = b
+            back = load_bytes(save_bytes(mid), charset=b)
+            ctx.check('tracks == fold_eot(original)', same_msgs(list(back.tracks[0])[:-1], list(tr)), 'charset-reassigned',
+                      case, lambda: first_diff(list(back.tracks[0]), list(tr)))
+        except Exception as exc:
+            ctx.fail('tracks == fold_eot(original)', f'charset-reassigned:{type(exc).__name__}', case, repr(exc))
     for cs_seq in (('latin1', 'utf-8', 'latin1'), ('utf-8', 'cp1252', 'utf-8')):
         for cs in cs_seq:
             mid = MidiFile(charset=cs)
@@ -359,7 +422,7 @@ def run(ctx):
     nr = 120 if ctx.tier == 'quick' else 6000
     for j in range(nr):
         seed = f'{ctx.seed}:{ctx.shard}:rt{j}'
-        nt = roundtrip_case(ctx, seed, real_file=(j % 10 == 0))
+        nt = roundtrip_case(ctx, seed, real_file=(True if j % 10 == 0 else FILE_MODES[j % len(FILE_MODES)] if j % 10 == 5 else False))
         if nt:
             ctx.nontrivial(('rt', seed))
         n += 1
